@@ -10,7 +10,9 @@ Three independent pieces:
                      statement has been seen, the stack of open blocks and the position inside the
                      current statement.  Every reachable configuration has a completion
                      (``close``), hence the first token without a transition is the *first
-                     offending token* (viable-prefix property);
+                     offending token* (viable-prefix property).  ``delta_relaxed`` is the same
+                     automaton for a superset language (any statement in any list); it never
+                     judges a text, it only proposes continuations beyond a context-offending token;
 * ``Earley``       - an Earley recogniser over an explicit BNF of the same grammar, used only by
                      ``selfcheck`` to keep the pushdown recogniser honest.
 
